@@ -74,13 +74,23 @@ var (
 // fake NNS ---------------------------------------------------------------
 
 type fakeNNS struct {
+	mu      sync.Mutex
 	records map[string]map[string]struct{} // domain -> "address=.."
 	failing map[string]struct{}
+}
+
+// load replaces the content (the validator keeps pointing to the same NNS).
+func (n *fakeNNS) load(from *fakeNNS) {
+	n.mu.Lock()
+	n.records, n.failing = from.records, from.failing
+	n.mu.Unlock()
 }
 
 var errNNSRPC = errors.New("harness: NNS RPC failure")
 
 func (n *fakeNNS) CheckDomainRecord(domain, record string) error {
+	n.mu.Lock()
+	defer n.mu.Unlock()
 	if _, ok := n.failing[domain]; ok {
 		return errNNSRPC
 	}
@@ -818,7 +828,7 @@ func TestC38Validators(t *testing.T) {
 
 	rapid.Check(t, func(t *rapid.T) {
 		r := genRecipe(t, len(w.eps))
-		w.nns = w.nnsFor(r)
+		w.nns.load(w.nnsFor(r))
 		ni, ref := w.build(r)
 		w.serve(r, ni)
 		w.ext.set(r.ExtMode)
@@ -982,4 +992,146 @@ func prefix(s string) string {
 func dump(ni netmap.NodeInfo) string {
 	b, _ := ni.MarshalJSON()
 	return string(b)
+}
+
+// TestC38History: the inner ring keeps ONE CompositeValidator for its whole
+// life and candidates re-announce themselves every epoch. One composite
+// instance per configuration receives a history of 3-10 candidates in which
+// later candidates are near copies of earlier ones: the same key / addresses /
+// attributes with another node state, or the identical descriptor after a
+// verdict of a validator changed (record removed from the private-domain
+// access list, external verifier revoked it, the node stopped answering or
+// answers with another descriptor). Oracle at every step: the composite
+// accepts <=> every configured validator, evaluated on its own right now on
+// the same descriptor, accepts.
+func TestC38History(t *testing.T) {
+	rec := ev.New("C38", "validator-history")
+	defer rec.Flush()
+	w := getWorld()
+
+	rapid.Check(t, func(t *rapid.T) {
+		base := genRecipe(t, len(w.eps))
+		cfg := base.Config
+		// composites that matter: at least the state validator plus verdict-flipping ones, mostly the production order
+		if len(cfg) == 0 || rapid.IntRange(0, 2).Draw(t, "productionCfg") > 0 {
+			cfg = []string{"state", "structure", "availability", "privatedomains", "locode", "external"}
+			if rapid.Bool().Draw(t, "noExternal") {
+				cfg = cfg[:5]
+			}
+		}
+		var vs []nmproc.NodeValidator
+		uniq := map[string]bool{}
+		for _, name := range cfg {
+			vs = append(vs, w.validator(name))
+			uniq[name] = true
+		}
+		composite := nodevalidation.New(vs...) // ONE instance for the whole history
+
+		var (
+			steps                []recipe
+			accepted             []int // indexes of steps the composite accepted
+			history              []string
+			reAfterAccept, flips int
+		)
+		n := rapid.IntRange(3, 10).Draw(t, "steps")
+		for i := 0; i < n; i++ {
+			var r recipe
+			kind := "fresh"
+			if len(steps) > 0 && rapid.IntRange(0, 3).Draw(t, "reannounce") > 0 {
+				src := rapid.IntRange(0, len(steps)-1).Draw(t, "of")
+				if len(accepted) > 0 && rapid.IntRange(0, 3).Draw(t, "ofAccepted") > 0 {
+					src = accepted[rapid.IntRange(0, len(accepted)-1).Draw(t, "ofAcceptedIdx")]
+				}
+				r = steps[src]
+				kind = rapid.SampledFrom([]string{"state", "state", "nns", "external", "node", "same"}).Draw(t, "change")
+				switch kind {
+				case "state":
+					r.State = rapid.SampledFrom([]string{"offline", "unset", "maintenance", "online"}).Draw(t, "newState")
+				case "nns":
+					r.InDomain = !r.InDomain
+				case "external":
+					r.ExtMode = extMode(rapid.IntRange(0, int(extModes)-1).Draw(t, "newExtMode"))
+				case "node":
+					r.NodeMut = rapid.SampledFrom([]string{"same", "attr-value", "key", "error", "endpoint-extra"}).Draw(t, "newNodeMut")
+				}
+				kind = fmt.Sprintf("re(%d):%s", src, kind)
+			} else {
+				r = genRecipe(t, len(w.eps))
+				// candidates that pass are what makes a history interesting
+				if rapid.Bool().Draw(t, "easy") {
+					r.State, r.DupAttr, r.Domain, r.ExtMode, r.NodeMut = "online", false, "", extOK, "same"
+					if r.Locode != 0 {
+						r.Locode, r.LocMut = 1+r.Locode%6, locMutNone
+					}
+					var eps []int
+					for _, e := range r.Endpoints {
+						eps = append(eps, e%3)
+					}
+					r.Endpoints = eps
+					if r.KeyKind != "pool" {
+						r.KeyKind = "pool"
+					}
+				}
+			}
+			r.Config = cfg
+			steps = append(steps, r)
+
+			w.nns.load(w.nnsFor(r))
+			ni, _ := w.build(r)
+			w.serve(r, ni)
+			w.ext.set(r.ExtMode)
+
+			single := map[string]error{}
+			for name := range uniq {
+				single[name] = safeVerify(w.validator(name), ni)
+			}
+			w.ext.set(r.ExtMode)
+			compErr := safeVerify(composite, ni)
+			timedOut := isTimeout(compErr)
+			allAccept := true
+			for _, e := range single {
+				timedOut = timedOut || isTimeout(e)
+				if e != nil {
+					allAccept = false
+				}
+			}
+			if timedOut {
+				envTimeouts++
+				if envTimeouts > 50 {
+					ev.Inconclusive("more than 50 cases hit local network time-outs (overloaded machine)")
+				}
+				history = append(history, kind+"->env-timeout")
+				continue
+			}
+			history = append(history, fmt.Sprintf("%s->%v", kind, compErr == nil))
+			if strings.HasPrefix(kind, "re(") {
+				var src int
+				fmt.Sscanf(kind, "re(%d)", &src)
+				for _, a := range accepted {
+					if a == src {
+						reAfterAccept++
+						if !allAccept {
+							flips++
+						}
+					}
+				}
+			}
+			if (compErr == nil) != allAccept {
+				b, _ := json.Marshal(r)
+				t.Fatalf("step %d (%s): composite verdict %v but the validators, run on their own right now, say %s\nconfig %v\nhistory %s\nrecipe %s\nnode %s",
+					i, kind, compErr, errMap(single), cfg, strings.Join(history, " "), b, dump(ni))
+			}
+			if compErr == nil {
+				accepted = append(accepted, i)
+			}
+		}
+		labels := []string{fmt.Sprintf("accepted-%d", min(len(accepted), 3)), fmt.Sprintf("reannounce-after-accept-%d", min(reAfterAccept, 3))}
+		if flips > 0 {
+			labels = append(labels, "accepted-then-must-reject")
+		}
+		rec.Case(flips > 0, strings.Join(history, " ")+fmt.Sprint(cfg), labels...)
+		if rec.WantSample() {
+			rec.Sample(map[string]any{"config": cfg, "history": history})
+		}
+	})
 }
